@@ -14,7 +14,8 @@ EXPLANATION = (
     "path); C11-R3 decorators (instance of C07-R2); C11-R4 the lambda body is "
     "[retv := None, ..., retv][-1] and `return v` stores into the same temporary; C11-R5 the name is "
     "bound through get_assign of the defining namespace; C11-R6 rendering of the lambda signature by "
-    "the custom unparser (skeleton rule on unparse_Lambda)."
+    "the custom unparser (skeleton rule on unparse_Lambda); C11-R7 the innermost operand of the "
+    "decorator chain is the lambda itself (converter-added wrappers go outside the user's decorators)."
 )
 ASSUMPTIONS = ["CPython binds call arguments from the lambda's signature (run-time behaviour, not decided)"]
 
